@@ -151,8 +151,10 @@ class Wire(object):
         """-> (bytes, spans). spans: list of (offset, width, kind, path);
         kind in scalar/counter/sizer/flag/disc/enum/bytes/pad."""
         out = _Out(endian)
+        out.top_path = tname
         self._enc_type(tname, value, out, tname)
         self.last_greedy_end = out.greedy_end
+        self.last_top_offsets = out.top_offsets
         return bytes(out.b), out.spans
 
     def _enc_type(self, tname, value, out, path):
@@ -183,6 +185,8 @@ class Wire(object):
                 out.align(L.block_align[bi])                               # W11
             for f in block:
                 out.align(f.align)                                         # W9
+                if path == out.top_path:
+                    out.top_offsets[f.name] = len(out.b)
                 self._enc_field(st, f, value, out, path + '.' + f.name)
         out.align(L.align)                                                 # W9 end padding
 
@@ -456,6 +460,8 @@ class _Out(object):
         self.spans = []
         self.e = endian
         self.greedy_end = None
+        self.top_path = None
+        self.top_offsets = {}
 
     def align(self, a):
         n = (-len(self.b)) % a
